@@ -3,6 +3,16 @@
 import json, sys
 pid, wt = sys.argv[1], sys.argv[2]
 n = sys.argv[3] if len(sys.argv) > 3 else "3"
+import glob
+already = ""
+if len(sys.argv) > 4 and sys.argv[4] == "round2":
+    tried = []
+    for f in sorted(glob.glob('/verif/seeded/*/meta.json')):
+        m = json.load(open(f))
+        if m['property'] == pid:
+            tried.append(" - " + m['breaks'])
+    if tried:
+        already = "ALREADY TRIED by earlier contributors (do NOT repeat these ideas or close variants of them; look at other code sites, other clauses of the property, other mechanisms):\n" + "\n".join(tried) + "\n\n"
 for l in open('/verif/properties.jsonl'):
     p = json.loads(l)
     if p['id'] == pid:
@@ -20,7 +30,7 @@ Why the existing tests cannot settle it: {p['why_tests_cant']}
 Anchored in files: {', '.join(p['anchors']['files'])}
 Mechanisms meant to make it hold: {json.dumps(p['anchors'].get('mechanism', []))}
 
-YOUR TASK
+{already}YOUR TASK
 Produce up to {n} DIFFERENT changes (different code sites or different failure mechanisms), each of which:
  1. is a small source change to non-test files of the library (typically 1–15 changed lines) that a reviewer could plausibly accept;
  2. still compiles and leaves the ENTIRE existing test suite passing (run it; unedited);
